@@ -22,7 +22,7 @@ vlib.standard_check({
     "harness": "c15",
     # [ncases, eventsPerCase]
     "streams": {"quick": [[300, 2000], [1500, 150], [300, 500, "stream"]],
-                "thorough": [[2500, 4000], [300, 30000], [15000, 200], [4000, 1000, "stream"]]},
+                "thorough": [[2000, 4000], [250, 30000], [12000, 200], [3000, 1000, "stream"]]},
     "search": [[1500, 2000], [6000, 300], [2000, 600, "stream"]],
     "signature": signature,
     "eval_key": "ops",
